@@ -392,5 +392,29 @@ func genC09(g *Gen) {
 			}
 		}
 	}
+	// long strings (beyond any small fixed buffer): 17..40 payload bytes, difference late in the string
+	for _, n := range []int{16, 17, 24, 33, 40} {
+		long := make([]byte, n+1)
+		for i := range long {
+			long[i] = sweep[(i*5+n)%len(sweep)]
+		}
+		for _, t := range []int{8 * n, 8*n - 5} {
+			r := c09Range{append([]byte{}, long[:n]...), 0, t}
+			for _, i := range []int{7, 8, 15, 16, n - 2, n - 1} {
+				for _, m := range []byte{0x80, 0x01} {
+					a := append([]byte{}, long...)
+					a[i] ^= m
+					for _, la := range []int{i + 1, n - 1, n, n + 1} {
+						if la > i && la <= len(a) {
+							upto(append([]byte{}, a[:la]...), r, "sweep-upto-long")
+						}
+					}
+					r2 := c09Range{append([]byte{}, a[:n]...), 0, 8 * n}
+					cmp(r, r2, "sweep-cmp-long")
+					cmp(r2, r, "sweep-cmp-long")
+				}
+			}
+		}
+	}
 	g.Exhaust = append(g.Exhaust, "CmpUpto/StrCmpUpto/Cmp: payload lengths 1..12 bytes x to in {8n,8n-3,8n-7} x every position of a single differing byte (high/low bit) x len(a) in {i+1,n-1,n,n+1}")
 }
